@@ -79,7 +79,7 @@ bool ops_image(Ctx& c, const json& s, int idx, bool& handled) {
 	// ---- C11: a (truncated / corrupted) bitmap, tileset or PRT file: an ordinary error, or an object that is safe to use ----------
 	if (op == "robust_image") { const std::string kind = s["kind"], fault = s["fault"], must = s["must"]; const std::string fsite = site + "/" + kind + "." + fault;
 		Proto::sanitize(Proto::g_site, sizeof Proto::g_site, fsite);
-		if (s.value("slow", false)) { static const bool thorough = getenv("VERIF_TIER") && std::string(getenv("VERIF_TIER")) == "thorough"; if (!thorough) return true; alarm(3000); }
+		if (s.value("slow", false)) { static const bool thorough = getenv("VERIF_TIER") && std::string(getenv("VERIF_TIER")) == "thorough"; if (!thorough) return true; Proto::watchdog(3000); }
 		auto img = raw(s["image"]); bool err = false; long followUps = 0;
 		auto at = [&](const std::string& what) { Proto::sanitize(Proto::g_site, sizeof Proto::g_site, fsite + "/" + what); };
 		// every follow-up operation is an ordinary success or an ordinary error; anything else is caught by the sanitizers / watchdog
